@@ -31,7 +31,7 @@ Targets(n, f, salt) == [i \in 1..n |-> IF HasLinks(f) /\ i > n - MaxLinks /\ i >
 
 BigInit == \E j \in 1..Instances:
              \* (copying recurses once per level: chains stay below MaxDepth levels)
-             /\ k = IF j % 6 = 4 THEN BigMax - (j \div 6) ELSE IF j % 6 = 5 THEN MaxDepth - (j \div 6) ELSE Pick(BigMin..BigMax, j)
+             /\ k = IF j % 6 = 4 THEN BigMax - ((j \div 6) % 10) ELSE IF j % 6 = 5 THEN MaxDepth - ((j \div 6) % 10) ELSE Pick(BigMin..BigMax, j)
              /\ p = Grow([i \in 1..k |-> 0], 2, k, j % 6, j)
              \* (the stars alternate between the two mixin families: hundreds of children below one node of either)
              /\ fam = IF j % 6 = 4 THEN (IF (j \div 6) % 2 = 0 THEN "light" ELSE "node") ELSE FamSeq[(j % 8) + 1]
